@@ -476,6 +476,24 @@ impl Family for PromoFamily {
     }
 }
 
+/// Wrapper: at the member itself only the (pseudo-legal) pawn moves of the side to move are
+/// explored (for the en-passant families that means the capturer's moves, en passant included).
+pub struct PawnMovesFirst<F: Family>(pub F);
+impl<F: Family> Family for PawnMovesFirst<F> {
+    fn name(&self) -> String {
+        format!("{}; first action restricted to pawn moves", self.0.name())
+    }
+    fn size(&self) -> u64 {
+        self.0.size()
+    }
+    fn get(&self, i: u64) -> Option<RefPos> {
+        self.0.get(i)
+    }
+    fn first_moves(&self, p: &RefPos) -> Option<Vec<RMove>> {
+        Some(p.pseudo_moves().into_iter().filter(|m| matches!(p.at(m.from), Some((Kind::P, _)))).collect())
+    }
+}
+
 /// Collect all members of a family (for use as closure seeds).
 pub fn collect(f: &dyn Family) -> Vec<RefPos> {
     use rayon::prelude::*;
